@@ -202,7 +202,7 @@ def translate_runner(repo: Path, template_dir: str, runner: str) -> Dict[str, An
     names = set(re.findall(r"^\s*destination=\$output_dir/(\S+)\s*$", text, re.M))
     if not names and re.search(r"^\s*destination=\$output_dir\s*$", text, re.M):
         # `cp <dir>/<file> $destination` into the directory: the file keeps its name
-        names = {x.rsplit("/", 1)[-1] for x in re.findall(r"^\s*\$cmd\s+(\S+)\s+\$destination\s*$", text, re.M)}
+        names = {x.rsplit("/", 1)[-1] for x in re.findall(r'^\s*\$cmd\s+(\S+)\s+"?\$destination"?\s*$', text, re.M)}
     m_fl = set(re.findall(r"-e \$DIR/(\S+) \]", text))
     if len(m_out) != 1:
         raise Unrec(f"{template_dir}/{runner}: default output_dir not found exactly once")
